@@ -8,6 +8,8 @@
 #include <algorithm>
 #include <map>
 #include <unordered_map>
+#include <dirent.h>
+#include <fstream>
 #include <frequent_items_sketch.hpp>
 #include "vtrace.hpp"
 #include "refhash.hpp"
@@ -108,14 +110,38 @@ template<class T> struct Driver {
     if (r.size() > 64 && !unknown) e.il("cd", dense(r));
     return e;
   }
+  // lg_cur_map_size is not a getter: it is printed by to_string() (design-level observable, compared in tier B only)
+  static int lgcur(const Sk& s) {
+    std::string t(s.to_string().c_str());
+    size_t p = t.find("lg cur map size"); if (p == std::string::npos) return -1;
+    p = t.find(':', p); return atoi(t.c_str() + p + 1);
+  }
+  std::string xfields;     // expected design-model state of a replayed behaviour, appended to the next mutating event
   Ev& scal(Ev& e, int i) {
-    e.i("off", (long long)sk[i]->get_maximum_error()).i("total", (long long)sk[i]->get_total_weight()).i("n", sk[i]->get_num_active_items());
+    e.i("off", (long long)sk[i]->get_maximum_error()).i("total", (long long)sk[i]->get_total_weight()).i("n", sk[i]->get_num_active_items())
+     .i("lgCur", lgcur(*sk[i]));
     if (restored[i]) e.b("restored", true);
+    if (!xfields.empty()) { e.s += xfields; xfields.clear(); }
     return e;
   }
-  void mk(int i, int lg) {
+  // table (iteration) order of a sketch = order of the items in its serialized image: the order in which merge() replays them
+  std::vector<long> table_order(const Sk& s) {
+    auto b = s.serialize(); std::vector<uint8_t> img(b.begin(), b.end()); std::vector<long> ord;
+    if (img.size() < 32) return ord;
+    uint32_t n; memcpy(&n, img.data() + 8, 4);
+    size_t pos = 32 + 8 * (size_t)n;
+    for (uint32_t k = 0; k < n && pos <= img.size(); k++) {
+      std::string it; size_t used = Codec<T>::parse(img.data() + pos, img.size() - pos, it);
+      if (!used) break;
+      auto f = rev.find(it); ord.push_back(f == rev.end() ? -1 : f->second); pos += used;
+    }
+    return ord;
+  }
+  void mk(int i, int lg, int fixed_start = -1) {
     int st = g.chance(40) ? 3 : (int)g.range(0, lg);    // values below LG_MIN_MAP_SIZE are raised to it by the constructor
-    if (g.chance(30)) sk[i].reset(new Sk((uint8_t)lg)); else sk[i].reset(new Sk((uint8_t)lg, (uint8_t)st));
+    if (fixed_start >= 0) st = fixed_start;
+    if (fixed_start < 0 && g.chance(30)) { sk[i].reset(new Sk((uint8_t)lg)); st = Sk::LG_MIN_MAP_SIZE; }   // documented default start size
+    else sk[i].reset(new Sk((uint8_t)lg, (uint8_t)st));
     lgmax[i] = lg; restored[i] = false; prev[i].clear(); ver[i]++;
     Ev e("New"); e.i("id", i).i("lgMax", lg).i("lgStart", st).str("type", Codec<T>::name()); scal(e, i).emit();
   }
@@ -149,9 +175,10 @@ template<class T> struct Driver {
   static constexpr long long TOTAL_CAP = 50000000LL;
   bool fits(int dst, long long add) { return (long long)sk[dst]->get_total_weight() + add <= TOTAL_CAP; }
   void do_merge(int dst, int src, bool rv) {
+    auto ord = table_order(*sk[src]);
     if (rv) sk[dst]->merge(std::move(*sk[src])); else sk[dst]->merge(*sk[src]);
     ver[dst]++;
-    Ev e("Merge"); e.i("dst", dst).i("src", src).b("rv", rv);
+    Ev e("Merge"); e.i("dst", dst).i("src", src).b("rv", rv).il("ord", ord);
     delta(scal(e, dst), dst).emit();
     if (rv) { sk[src].reset(); prev[src].clear(); ver[src]++; Ev("Drop").i("id", src).emit(); }
   }
@@ -346,6 +373,35 @@ template<class T> struct Driver {
   void twin_obs() { Ev("TwinObs").i("a", twin_a).i("b", twin_b).b("restored", true).emit(); }
 };
 
+// ---- spec -> impl: replay of behaviours generated by TLC from spec/GenFreqItems.tla ---------------------------------
+static long jint(const std::string& ln, const char* key) {
+  std::string k = std::string("\"") + key + "\":"; size_t p = ln.find(k);
+  return p == std::string::npos ? -1 : atol(ln.c_str() + p + k.size());
+}
+static std::string jarr(const std::string& ln, const char* key) {
+  std::string k = std::string("\"") + key + "\":["; size_t p = ln.find(k); if (p == std::string::npos) return "[]";
+  size_t q = ln.find(']', p); return ln.substr(p + k.size() - 1, q - (p + k.size() - 1) + 1);
+}
+template<class T> static void replay_file(vt::Rng& g, const std::string& path, long seg) {
+  std::ifstream in(path); std::string ln; std::vector<std::string> steps;
+  while (std::getline(in, ln)) if (ln.size() > 2) steps.push_back(ln);
+  if (steps.empty()) return;
+  Driver<T> d(g, 0);
+  Ev("Begin").i("seg", seg).str("type", Codec<T>::name()).b("generated", true).emit();
+  d.rev.clear(); d.U = 14;
+  for (int i = 0; i < Driver<T>::NS; i++) { d.sk[i].reset(); d.prev[i].clear(); d.ver[i] = 0; d.restored[i] = false; }
+  d.mk(0, (int)jint(steps[0], "lgMax"), 3);
+  long n = 0;
+  for (auto& st : steps) {
+    Ev x("x"); x.s.clear();
+    x.i("xOff", jint(st, "off")).i("xN", jint(st, "n")).i("xLgCur", jint(st, "lgCur")).i("xTotal", jint(st, "total")).raw("xCnt", jarr(st, "cnt"));
+    d.xfields = x.s;
+    d.do_update(0, jint(st, "x"), jint(st, "w"), g.chance(30));
+    if (++n % 15 == 0) d.obs(0);
+  }
+  d.obs(0);
+}
+
 int main(int argc, char** argv) {
   vt::install_terminate();
   uint64_t seed = (uint64_t)vt::argl(argc, argv, "--seed", 1);
@@ -356,6 +412,17 @@ int main(int argc, char** argv) {
   long big = vt::argl(argc, argv, "--big", 0);
   vt::open_out(vt::arg(argc, argv, "--out", "/dev/stdout"));
   vt::Rng g(seed);
+  const char* rdir = vt::arg(argc, argv, "--replay-dir", nullptr);
+  if (rdir) {
+    long part = vt::argl(argc, argv, "--part", 0), parts = vt::argl(argc, argv, "--parts", 1);
+    std::vector<std::string> files;
+    if (DIR* dd = opendir(rdir)) { while (dirent* e = readdir(dd)) { std::string n = e->d_name; if (n.size() > 7 && n.substr(n.size() - 7) == ".ndjson") files.push_back(n); } closedir(dd); }
+    std::sort(files.begin(), files.end());
+    for (size_t k = 0; k < files.size(); k++) if ((long)(k % parts) == part) {
+      if (k % 2 == 0) replay_file<int64_t>(g, std::string(rdir) + "/" + files[k], (long)k); else replay_file<std::string>(g, std::string(rdir) + "/" + files[k], (long)k);
+    }
+    segments = 0;
+  }
   for (long seg = 0; seg < segments; seg++) {
     bool b = seg < big;
     if ((seg + seed) % 2 == 0) { Driver<int64_t> d(g, serde_pct); d.segment(seg, events, maxlg, b); }
